@@ -84,6 +84,8 @@ def run_case(cas):
     x, y, fl = vec(m["x"]), vec(m["y"]), m["fl"]
     fit = m.get("fit", "none")
     K = "resample-%s-%s-%s-" % (ty, bc, "fit" if fit != "none" else "interp")
+    if len(x) >= 40 and fit == "none" and ty == "cubic" and bc == "periodic":
+        K = "large-grid-" + K   # input class: interpolation of a table with 40 or more points
     fails, classes, checks = [], [], 0
 
     def fail(key, what):
@@ -191,11 +193,13 @@ def all_cases(thorough):
         ("G4", [0.1 * k for k in range(1, 7)], 0.1),
         ("G5", [0.0, 1.0, 1.5, 3.5], None),
     ]
+    grids.append(("G6", [0.1 * k for k in range(0, 101)], 0.1))   # 101 points, decimal step
     pats = [[-1, 2, 0, 1, 2, -1], [2, 2, -1, 0, 1, 2], [0, 1, 0, 0, -1, 0]]
+    pats = [(p * 17)[:101] for p in pats]
     for name, g, h in grids:
         n = len(g)
         mn, mx = g[0], g[-1]
-        fine = 0.025 if name == "G4" else 0.125
+        fine = 0.025 if name in ("G4", "G6") else 0.125
         outs = []
         if h:
             outs.append("%r:%r:%r" % (mn, h, mx))                      # same grid
@@ -217,7 +221,7 @@ def all_cases(thorough):
                     C.append("ty=%s;bc=natural;x=%s;y=%s;fl=%s;grid=%s%s" % (ty, x_s, ",".join(H(v) for v in yv), ("iou" * n)[:n], o, ";" + extra if extra else ""))
                 C.append("ty=%s;bc=periodic;x=%s;y=%s;fl=%s;grid=%s" % (ty, x_s, ",".join(H(v) for v in per), ("uoi" * n)[:n], o))
             # all flag patterns over {i,o,u}^3 on the first three points
-            for o in outs[:2] if not thorough else outs[:3]:
+            for o in ([] if name == "G6" else outs[:2] if not thorough else outs[:3]):
                 for a in "iou":
                     for b in "iou":
                         for c in "iou":
@@ -254,7 +258,7 @@ def main():
             print("case FAILS: key=%s %s" % (k, w))
         return 3
     R = pybsx.Report("C12", "resample", a.tier)
-    R.rule = ("csg_resample runs: 5 input grids (uniform, non-uniform, shifted, decimal step 0.1, 4..6 points) x ordinates (a straight line, 3 vectors over {-1,0,1,2}, "
+    R.rule = ("csg_resample runs: 6 input grids (uniform, non-uniform, shifted, decimal step 0.1, 4..6 points, one with 101 points) x ordinates (a straight line, 3 vectors over {-1,0,1,2}, "
               "one periodic vector) x type akima/cubic/linear x boundaries natural/periodic x output grid {same, finer, coarser, offset, range not a multiple of the step}, "
               "all 27 flag patterns over {i,o,u}^3 on the first three points; fits on 3 fit grids x {line, hat, parabola, alphabet pattern} data x 3 output grids x "
               "cut/--nocut; --derivative always written. distinct_nontrivial = distinct (type, boundary, first output rows, flags)")
